@@ -182,11 +182,18 @@ class _FactsView:
     def __init__(self, prog: Prog, fn: Fn, fl):
         self.fl = fl
         self.alias: dict[str, str] = {}
+        self.flag: dict[str, str] = {}
         for nm, defs in prog._all_local_defs(fn).items():
             if len(defs) == 1 and defs[0][0] in ("assign", "annassign", "walrus"):
                 v = getattr(defs[0][1], "value", None)
                 if isinstance(v, ast.Call) and isinstance(v.func, ast.Name) and v.func.id == "len" and len(v.args) == 1:
                     self.alias[nm] = u(v)
+                elif isinstance(v, ast.Compare) and len(v.ops) == 1 and not any(isinstance(x, (ast.Call, ast.NamedExpr)) for x in ast.walk(v) if not (isinstance(x, ast.Call) and isinstance(x.func, ast.Name) and x.func.id == "len")):
+                    # a stored test: `is_qualified = "." in name` ... `if is_qualified:` (the names it reads must not be re-bound in between:
+                    # accepted when they are parameters or single-definition locals)
+                    reads = {x.id for x in ast.walk(v) if isinstance(x, ast.Name)}
+                    if all(len(prog.local_defs(fn, r)) == 0 or len(prog.local_defs(fn, r)) == 1 for r in reads):
+                        self.flag[nm] = u(v)
 
     def __getattr__(self, item):
         return getattr(self.fl, item)
@@ -200,6 +207,9 @@ class _FactsView:
                     t2 = re.sub(rf"(?<![\w.]){re.escape(nm)}(?![\w(])", txt, t2)
                 if t2 != t:
                     facts.add((t2, p))
+        for t, p in list(facts):
+            if t in self.flag:
+                facts.add((self.flag[t], p))
         return facts
 
 
